@@ -25,6 +25,9 @@ import (
 	"fmt"
 	"math/rand"
 	"sort"
+	"strings"
+	"sync"
+	"sync/atomic"
 	"time"
 
 	"github.com/KafScale/platform/internal/verifkit"
@@ -59,7 +62,7 @@ type VerifC21Step struct {
 	Acked     bool               `json:"acked"`
 	Err       string             `json:"err,omitempty"`
 	Stale     bool               `json:"stale_copy,omitempty"` // broker had not yet seen another writer's snapshot when it ran
-	Etcd      map[string]int     `json:"etcd_after"`            // topic -> partitions in the etcd snapshot after the step
+	Etcd      map[string]int     `json:"etcd_after"`           // topic -> partitions in the etcd snapshot after the step
 }
 
 type c21Broker struct {
@@ -415,4 +418,476 @@ func VerifC21RunCase(env VerifC21Env, ci int, rng *rand.Rand) bool {
 		r.Sample(map[string]any{"case": ci, "sync": env.Sync, "steps": steps, "obligations": obl, "etcd_final": final})
 	}
 	return true
+}
+
+// ---------------------------------------------------------------------------
+// stress engine: real watchers, concurrent brokers, optionally a concurrent operator
+// ---------------------------------------------------------------------------
+
+// VerifC21StressEnv is what a stress leg provides.
+type VerifC21StressEnv struct {
+	R         *verifkit.Run
+	Cli       *clientv3.Client
+	Endpoints []string
+	// Publish: the operator's real publish path; when set, an operator goroutine reconciles concurrently with the brokers.
+	Publish func(ctx context.Context, resources []VerifC21Resource, replicas int32) error
+	Prefix  string // counter prefix
+}
+
+type c21Put struct {
+	Writer string         `json:"writer"` // broker-<i> | untagged (operator) | harness-sentinel
+	Broker int            `json:"-"`      // >=0 broker, -1 sentinel, -2 untagged
+	Rev    int64          `json:"rev"`
+	Prev   int64          `json:"overwrote_rev"`
+	Base   int64          `json:"copy_based_on_rev,omitempty"` // brokers only
+	Tick   int64          `json:"tick,omitempty"`              // brokers only: logical time at which the Put was answered
+	Topics map[string]int `json:"topics"`
+}
+
+type c21Tag struct {
+	broker int
+	base   int64
+	tick   int64
+}
+
+type c21Recorder struct {
+	mu    sync.Mutex
+	tags  map[int64]c21Tag // revision of a broker's snapshot Put -> who and from which copy
+	clock atomic.Int64
+	gets  map[int][]int64 // broker -> logical times at which a snapshot Get was answered
+}
+
+// c21TagKV observes one broker's KV traffic on the snapshot key.
+type c21TagKV struct {
+	clientv3.KV
+	broker int
+	rec    *c21Recorder
+	base   atomic.Int64
+}
+
+func (k *c21TagKV) Get(ctx context.Context, key string, opts ...clientv3.OpOption) (*clientv3.GetResponse, error) {
+	resp, err := k.KV.Get(ctx, key, opts...)
+	if err == nil && key == snapshotKey() {
+		if len(resp.Kvs) > 0 {
+			k.base.Store(resp.Kvs[0].ModRevision)
+		}
+		k.rec.mu.Lock()
+		k.rec.gets[k.broker] = append(k.rec.gets[k.broker], k.rec.clock.Add(1))
+		k.rec.mu.Unlock()
+	}
+	return resp, err
+}
+
+func (k *c21TagKV) Put(ctx context.Context, key, val string, opts ...clientv3.OpOption) (*clientv3.PutResponse, error) {
+	if key != snapshotKey() {
+		return k.KV.Put(ctx, key, val, opts...)
+	}
+	base := k.base.Load()
+	resp, err := k.KV.Put(ctx, key, val, opts...)
+	if err == nil {
+		k.base.Store(resp.Header.Revision)
+		k.rec.mu.Lock()
+		k.rec.tags[resp.Header.Revision] = c21Tag{broker: k.broker, base: base, tick: k.rec.clock.Add(1)}
+		k.rec.mu.Unlock()
+	}
+	return resp, err
+}
+
+type c21Ack struct {
+	Broker int    `json:"broker"`
+	Op     string `json:"op"`
+	Topic  string `json:"topic"`
+	N      int32  `json:"n,omitempty"`
+	Err    string `json:"err,omitempty"`
+	Call   int64  `json:"call"`
+	Ret    int64  `json:"ret"`
+}
+
+type c21Publish struct {
+	Resources []VerifC21Resource `json:"resources"`
+	Replicas  int32              `json:"replicas"`
+	Err       string             `json:"err,omitempty"`
+}
+
+// VerifC21StressCase runs one concurrent history and judges it after a sentinel.
+func VerifC21StressCase(env VerifC21StressEnv, ci int, rng *rand.Rand) {
+	r, cli, pre := env.R, env.Cli, env.Prefix
+	ctx, cancel := context.WithCancel(context.Background())
+	defer cancel()
+	wctx, wcancel := context.WithTimeout(ctx, 20*time.Second)
+	wipe, err := cli.Delete(wctx, "/kafscale/", clientv3.WithPrefix())
+	wcancel()
+	if err != nil {
+		r.Inconclusive(fmt.Sprintf("%s case %d: wipe: %v", pre, ci, err))
+		return
+	}
+	// the harness's own view of the snapshot key: every write, in revision order
+	hist := cli.Watch(ctx, snapshotKey(), clientv3.WithRev(wipe.Header.Revision+1), clientv3.WithPrevKV())
+
+	rec := &c21Recorder{gets: map[int][]int64{}, tags: map[int64]c21Tag{}}
+	const nb = 3
+	stores := make([]*EtcdStore, nb)
+	for i := 0; i < nb; i++ {
+		bcli, err := clientv3.New(clientv3.Config{Endpoints: env.Endpoints, DialTimeout: 5 * time.Second})
+		if err != nil {
+			r.Inconclusive(fmt.Sprintf("%s case %d: broker client: %v", pre, ci, err))
+			return
+		}
+		bcli.KV = &c21TagKV{KV: bcli.KV, broker: i, rec: rec}
+		// the body of NewEtcdStore, with the observed client
+		store := &EtcdStore{client: bcli, metadata: NewInMemoryStore(verifC21Initial(int32(i))), available: 1}
+		_ = store.refreshSnapshot(ctx)
+		store.startWatchers()
+		stores[i] = store
+		defer store.Close()
+	}
+	// op lists are fixed by the PRNG before anything runs
+	type planned struct {
+		op    string
+		topic string
+		n     int32
+	}
+	plans := make([][]planned, nb)
+	for i := 0; i < nb; i++ {
+		k := 6 + rng.Intn(4)
+		own := 0
+		for j := 0; j < k; j++ {
+			switch x := rng.Intn(10); {
+			case x < 4 || own == 0:
+				plans[i] = append(plans[i], planned{"create", fmt.Sprintf("b%d-t%d", i, own), int32(1 + rng.Intn(3))})
+				own++
+			case x < 6:
+				plans[i] = append(plans[i], planned{"grow", fmt.Sprintf("b%d-t%d", i, rng.Intn(own)), int32(2 + rng.Intn(6))})
+			case x < 8:
+				o := rng.Intn(nb)
+				plans[i] = append(plans[i], planned{"grow", fmt.Sprintf("b%d-t%d", o, rng.Intn(2)), int32(2 + rng.Intn(6))})
+			case x < 9:
+				plans[i] = append(plans[i], planned{"create", fmt.Sprintf("tmp-%d-%d", i, j), 1})
+				plans[i] = append(plans[i], planned{"delete", fmt.Sprintf("tmp-%d-%d", i, j), 0})
+			default:
+				plans[i] = append(plans[i], planned{"delete", fmt.Sprintf("tmp-%d-%d", rng.Intn(nb), rng.Intn(k)), 0})
+			}
+		}
+	}
+	var publishes []c21Publish
+	if env.Publish != nil {
+		for j, k := 0, 3+rng.Intn(4); j < k; j++ {
+			p := c21Publish{Replicas: int32(1 + rng.Intn(3))}
+			for i := 0; i < nb; i++ {
+				if rng.Intn(3) == 0 {
+					p.Resources = append(p.Resources, VerifC21Resource{Name: fmt.Sprintf("b%d-t%d", i, rng.Intn(2)), Partitions: int32(1 + rng.Intn(4))})
+				}
+			}
+			if rng.Intn(2) == 0 {
+				p.Resources = append(p.Resources, VerifC21Resource{Name: fmt.Sprintf("op-t%d", rng.Intn(2)), Partitions: int32(1 + rng.Intn(3))})
+			}
+			publishes = append(publishes, p)
+		}
+	}
+	var mu sync.Mutex
+	var acks []c21Ack
+	var wg sync.WaitGroup
+	panics := atomic.Int64{}
+	for i := 0; i < nb; i++ {
+		wg.Add(1)
+		go func(i int) {
+			defer wg.Done()
+			for _, p := range plans[i] {
+				a := c21Ack{Broker: i, Op: p.op, Topic: p.topic, N: p.n, Call: rec.clock.Add(1)}
+				func() {
+					defer func() {
+						if pv := recover(); pv != nil {
+							a.Err = fmt.Sprintf("panic: %v", pv)
+							panics.Add(1)
+						}
+					}()
+					var err error
+					switch p.op {
+					case "create":
+						_, err = stores[i].CreateTopic(ctx, TopicSpec{Name: p.topic, NumPartitions: p.n, ReplicationFactor: 1})
+					case "grow":
+						err = stores[i].CreatePartitions(ctx, p.topic, p.n)
+					case "delete":
+						err = stores[i].DeleteTopic(ctx, p.topic)
+					}
+					if err != nil {
+						a.Err = err.Error()
+					}
+				}()
+				a.Ret = rec.clock.Add(1)
+				mu.Lock()
+				acks = append(acks, a)
+				mu.Unlock()
+			}
+		}(i)
+	}
+	if env.Publish != nil {
+		wg.Add(1)
+		go func() {
+			defer wg.Done()
+			for j := range publishes {
+				if err := env.Publish(ctx, publishes[j].Resources, publishes[j].Replicas); err != nil {
+					publishes[j].Err = err.Error()
+				}
+			}
+		}()
+	}
+	wg.Wait()
+	r.Count(pre+"_panics_in_admin_ops", panics.Load())
+
+	// sentinel: changes have stopped; add a marker topic to whatever the snapshot holds now
+	sentinel := fmt.Sprintf("zz-sentinel-%d", ci)
+	sctx, scancel := context.WithTimeout(ctx, 20*time.Second)
+	resp, err := cli.Get(sctx, snapshotKey())
+	if err != nil {
+		scancel()
+		r.Inconclusive(fmt.Sprintf("%s case %d: read before sentinel: %v", pre, ci, err))
+		return
+	}
+	var snap ClusterMetadata
+	if len(resp.Kvs) > 0 {
+		if err := json.Unmarshal(resp.Kvs[0].Value, &snap); err != nil {
+			scancel()
+			r.Violation("snapshot_undecodable", "etcd snapshot is not decodable after the workload: "+err.Error(), map[string]any{"case": ci})
+			return
+		}
+	} else {
+		snap = verifC21Initial(0)
+	}
+	name := sentinel
+	snap.Topics = append(snap.Topics, protocol.MetadataTopic{Topic: &name, TopicID: TopicIDForName(sentinel),
+		Partitions: []protocol.MetadataPartition{{Partition: 0, Leader: 0, Replicas: []int32{0}, ISR: []int32{0}}}})
+	payload, _ := json.Marshal(snap)
+	sput, err := cli.Put(sctx, snapshotKey(), string(payload))
+	scancel()
+	if err != nil {
+		r.Inconclusive(fmt.Sprintf("%s case %d: sentinel put: %v", pre, ci, err))
+		return
+	}
+	shown := false
+	for dl := time.Now().Add(30 * time.Second); time.Now().Before(dl); time.Sleep(2 * time.Millisecond) {
+		all := true
+		for _, s := range stores {
+			m, err := s.Metadata(ctx, nil)
+			if err != nil {
+				all = false
+				break
+			}
+			if _, ok := verifC21Topics(m)[sentinel]; !ok {
+				all = false
+				break
+			}
+		}
+		if all {
+			shown = true
+			break
+		}
+	}
+	if !shown {
+		r.Inconclusive(fmt.Sprintf("%s case %d: sentinel topic not shown by every broker within the watchdog", pre, ci))
+		return
+	}
+	final, _, err := VerifC21ReadSnapshot(ctx, cli.KV)
+	if err != nil {
+		r.Inconclusive(fmt.Sprintf("%s case %d: final read: %v", pre, ci, err))
+		return
+	}
+	// drain the history up to the sentinel write
+	rec.mu.Lock()
+	tags := map[int64]c21Tag{}
+	for k, v := range rec.tags {
+		tags[k] = v
+	}
+	gets := map[int][]int64{}
+	for k, v := range rec.gets {
+		gets[k] = append([]int64(nil), v...)
+	}
+	rec.mu.Unlock()
+	var puts []c21Put
+	histDone := false
+	histDL := time.After(30 * time.Second)
+	for !histDone {
+		select {
+		case wr, ok := <-hist:
+			if !ok || wr.Err() != nil {
+				r.Inconclusive(fmt.Sprintf("%s case %d: history watch ended early", pre, ci))
+				return
+			}
+			for _, ev := range wr.Events {
+				if ev.Type != clientv3.EventTypePut {
+					continue
+				}
+				var s ClusterMetadata
+				_ = json.Unmarshal(ev.Kv.Value, &s)
+				p := c21Put{Rev: ev.Kv.ModRevision, Topics: verifC21Topics(&s), Broker: -2, Writer: "untagged"}
+				if ev.PrevKv != nil {
+					p.Prev = ev.PrevKv.ModRevision
+				}
+				if tg, ok := tags[p.Rev]; ok {
+					p.Broker, p.Base, p.Tick, p.Writer = tg.broker, tg.base, tg.tick, fmt.Sprintf("broker-%d", tg.broker)
+				} else if p.Rev == sput.Header.Revision {
+					p.Broker, p.Writer = -1, "harness-sentinel"
+				}
+				puts = append(puts, p)
+				if p.Rev >= sput.Header.Revision {
+					histDone = true
+				}
+			}
+		case <-histDL:
+			r.Inconclusive(fmt.Sprintf("%s case %d: history watch did not reach the sentinel revision", pre, ci))
+			return
+		}
+	}
+	r.Count(pre+"_cases_judged", 1)
+
+	// obligations
+	deleteTried := map[string]bool{}
+	min := map[string]int{}
+	by := map[string]c21Ack{}
+	for _, a := range acks {
+		if a.Op == "delete" {
+			deleteTried[a.Topic] = true
+		}
+	}
+	nacked := 0
+	for _, a := range acks {
+		r.Count(pre+"_ops_"+a.Op, 1)
+		if a.Err != "" {
+			continue
+		}
+		nacked++
+		r.Count(pre+"_acked_"+a.Op, 1)
+		if a.Op == "delete" || deleteTried[a.Topic] {
+			continue
+		}
+		if int(a.N) > min[a.Topic] {
+			min[a.Topic] = int(a.N)
+			by[a.Topic] = a
+		}
+	}
+	stalePuts, untagged := 0, 0
+	for _, p := range puts {
+		if p.Broker >= 0 && p.Prev != 0 && p.Base < p.Prev {
+			stalePuts++
+		}
+		if p.Broker == -2 {
+			untagged++
+		}
+	}
+	r.Count(pre+"_snapshot_writes", int64(len(puts)))
+	r.Count(pre+"_puts_from_stale_copy", int64(stalePuts))
+	r.Count(pre+"_untagged_writes", int64(untagged))
+	okPub := 0
+	for _, p := range publishes {
+		if p.Err == "" {
+			okPub++
+		}
+	}
+	r.Count(pre+"_operator_publishes_ok", int64(okPub))
+	r.Count(pre+"_operator_publishes_failed", int64(len(publishes)-okPub))
+
+	names := make([]string, 0, len(min))
+	for name := range min {
+		names = append(names, name)
+	}
+	sort.Strings(names)
+	sort.Slice(acks, func(a, b int) bool { return acks[a].Call < acks[b].Call })
+	replay := map[string]any{"case": ci, "ops": acks, "operator_publishes": publishes, "snapshot_writes": puts, "snapshot_get_ticks_by_broker": gets, "etcd_final": final}
+	conserved := true
+	for _, name := range names {
+		need := min[name]
+		got, present := final[name]
+		if present && got >= need {
+			for i, s := range stores {
+				m, err := s.Metadata(ctx, nil)
+				if err != nil {
+					continue
+				}
+				if g, ok := verifC21Topics(m)[name]; !ok || g < need {
+					conserved = false
+					r.Violation("broker_view_misses_acked_change_after_refresh",
+						fmt.Sprintf("topic %q acked with %d partitions is in etcd (%d) but broker %d shows %d after the sentinel", name, need, got, i, g), replay)
+				}
+			}
+			continue
+		}
+		conserved = false
+		effect := "partitions_shrunk"
+		if !present {
+			effect = "topic_lost"
+		}
+		// the write after which the obligation was, for the last time, no longer met
+		culprit := -1
+		everOK := false
+		for k := len(puts) - 1; k >= 0; k-- {
+			if puts[k].Topics[name] >= need {
+				everOK = true
+				break
+			}
+			culprit = k
+		}
+		a := by[name]
+		class := "unattributed:" + effect
+		why := ""
+		switch {
+		case !everOK:
+			// the acknowledged change never reached etcd. Look at the Put the call itself made (single caller per
+			// broker: the only snapshot Put of that broker answered inside the call) and at refreshes of the same
+			// broker answered between the start of the call and that Put.
+			ownPut, prevOwn := int64(-1), int64(0)
+			for _, p := range puts {
+				if p.Broker == a.Broker && p.Tick > a.Call && p.Tick < a.Ret {
+					ownPut = p.Tick
+				}
+				if p.Broker == a.Broker && p.Tick < a.Call && p.Tick > prevOwn {
+					prevOwn = p.Tick
+				}
+			}
+			// The refresh's Update() is not visible at the KV interface, only the answer to its Get: a refresh
+			// answered just before the call starts can still replace the copy after the call grew it. So any
+			// watcher refresh of this broker since its previous own write counts.
+			inside := false
+			for _, g := range gets[a.Broker] {
+				if g > prevOwn && g < ownPut {
+					inside = true
+				}
+			}
+			switch {
+			case ownPut < 0:
+				class = "acked_change_never_persisted:" + effect
+				why = fmt.Sprintf("no tagged snapshot Put was made inside the acknowledged %s by broker %d", a.Op, a.Broker)
+			case a.Op == "grow" && inside:
+				class = "grow_ack_lost_to_concurrent_refresh"
+				why = fmt.Sprintf("a watcher refresh of broker %d was answered between the broker's previous snapshot write and the Put its CreatePartitions made; that Put does not hold the growth", a.Broker)
+			default:
+				class = "acked_change_not_in_snapshot:" + effect
+				why = fmt.Sprintf("the snapshot Put made by the acknowledged %s on broker %d does not hold the change, and no refresh of that broker was answered since its previous write", a.Op, a.Broker)
+			}
+		case culprit >= 0 && puts[culprit].Broker == -2 && env.Publish == nil:
+			class = "untagged_writer:" + effect
+			why = fmt.Sprintf("the write at rev %d (over rev %d) did not go through a broker's KV.Put", puts[culprit].Rev, puts[culprit].Prev)
+		case culprit >= 0 && puts[culprit].Broker == -2:
+			class = "operator_publish:" + effect
+			why = fmt.Sprintf("the write at rev %d (over rev %d) was not made by a broker: operator publish", puts[culprit].Rev, puts[culprit].Prev)
+		case culprit >= 0 && puts[culprit].Broker >= 0 && puts[culprit].Prev != 0 && puts[culprit].Base < puts[culprit].Prev:
+			class = "broker_put_from_stale_copy:" + effect
+			why = fmt.Sprintf("broker %d wrote the whole snapshot at rev %d from a copy based on rev %d, overwriting rev %d", puts[culprit].Broker, puts[culprit].Rev, puts[culprit].Base, puts[culprit].Prev)
+		case culprit >= 0 && puts[culprit].Broker >= 0:
+			class = "broker_put_from_current_copy:" + effect
+			why = fmt.Sprintf("broker %d wrote the snapshot at rev %d from a copy based on the revision it overwrote (%d)", puts[culprit].Broker, puts[culprit].Rev, puts[culprit].Prev)
+		}
+		r.Violation(class, fmt.Sprintf("topic %q acked with %d partitions (%s by broker %d), no delete attempted; after the sentinel etcd has %d (present=%v): %s", name, need, a.Op, a.Broker, got, present, why), replay)
+	}
+	if conserved {
+		r.Count(pre+"_cases_conserved", 1)
+	}
+	var sig []string
+	for _, p := range puts {
+		sig = append(sig, fmt.Sprintf("%d:%v", p.Broker, p.Broker >= 0 && p.Base < p.Prev))
+	}
+	nontrivial := nacked > 0 && len(min) > 0 && (stalePuts > 0 || (env.Publish != nil && untagged > 0 && len(tags) > 0))
+	r.Case(verifkit.Hash(pre, ci, strings.Join(sig, ",")), nontrivial)
+	if ci == 0 {
+		r.Sample(map[string]any{"case": ci, "ops": acks, "operator_publishes": publishes, "snapshot_writes": len(puts), "stale_puts": stalePuts, "conserved": conserved})
+	}
 }
